@@ -273,6 +273,7 @@ func checkC16(c *Ctx, w *World) {
 	// safe by invariants that are compositions of rules checked elsewhere. The premises are re-evaluated here.
 	{
 		c15 := newCtx("C15", c.Tier, c.Repo, c.Verif)
+		c15.importing = append(append([]string{}, c.importing...), c.Property) // C15 takes a premise of C16 in turn
 		func() {
 			defer func() {
 				if r := recover(); r != nil {
